@@ -144,6 +144,9 @@ func (fx *FnExec) extern(st *State, in *ssa.Call, fn *ssa.Function, args []Val, 
 		comp := eng.regSlice(strT)
 		h := eng.heapGet(st, comp)
 		ar, of, ln := app("sl_arr", xs.T), app("sl_off", xs.T), app("sl_len", xs.T)
+		if !eng.freshIn(in.Common().Args[0], func(*ssa.BasicBlock) bool { return true }, map[ssa.Value]bool{}) {
+			fx.frameCheck(st, in, ar, nil)
+		}
 		na := eng.fresh(st, "sorted", "(Array Int Str)")
 		st.assume(app("sortedperm", sel(h, ar), na, of, "(+ "+of+" "+ln+")"))
 		eng.heapSet(st, comp, store(h, ar, na))
@@ -253,7 +256,8 @@ func (eng *Engine) immutableGlobal(fx *FnExec, st *State, g *ssa.Global) (Val, b
 	if !ok {
 		return Val{}, false
 	}
-	if eng.globalWritten(g) {
+	if eng.globalWritten(g) || tv.Exported() {
+		// exported variables (MaxTrials, MaxFailRate) are configuration the user may change: inputs of every call
 		return Val{}, false
 	}
 	init := eng.globalInit(tv)
